@@ -133,6 +133,9 @@ func (c *Ctx) authnRedirect(endpoint, relay, keyName, method string, idp *saml.I
 	msg, sigAlg, sigB := "", "", []byte(nil)
 	if u != nil {
 		raw := u.RawQuery
+		if method != "" && !knownMethod(method) {
+			why = append(why, fmt.Sprintf("key=unknown-method-accepted a redirect request was produced under the unknown signature method %q instead of an error", method))
+		}
 		if m := rawParam(raw, "SAMLRequest"); len(m) != 1 {
 			why = append(why, fmt.Sprintf("key=redirect-params %d SAMLRequest parameters", len(m)))
 		} else {
@@ -874,7 +877,19 @@ func (c *Ctx) postSequences(n int) {
 
 var sigMethods = []string{dsig.RSASHA1SignatureMethod, dsig.RSASHA256SignatureMethod, dsig.RSASHA384SignatureMethod, dsig.RSASHA512SignatureMethod,
 	dsig.ECDSASHA1SignatureMethod, dsig.ECDSASHA256SignatureMethod, dsig.ECDSASHA384SignatureMethod, dsig.ECDSASHA512SignatureMethod,
-	"http://www.w3.org/2001/04/xmldsig-more#rsa-md5", "bogus"}
+	"http://www.w3.org/2001/04/xmldsig-more#rsa-md5", "bogus",
+	// near misses of supported identifiers: not one of the eight, so unknown
+	dsig.RSASHA256SignatureMethod + "\n", " " + dsig.RSASHA1SignatureMethod, dsig.ECDSASHA256SignatureMethod + "\t", dsig.RSASHA256SignatureMethod + " ",
+	"HTTP://WWW.W3.ORG/2001/04/XMLDSIG-MORE#RSA-SHA256", dsig.RSASHA256SignatureMethod + "#", strings.TrimPrefix(dsig.RSASHA256SignatureMethod, "http://www.w3.org/2001/04/xmldsig-more")}
+
+func knownMethod(m string) bool {
+	for _, km := range sigMethods[:8] {
+		if km == m {
+			return true
+		}
+	}
+	return false
+}
 
 func (c *Ctx) genC13() {
 	keys := []string{"sp", "rsa1024", "rsa3072", "rsa4096", "ec256", "ec384", "ec521"}
@@ -904,7 +919,11 @@ func (c *Ctx) genC13() {
 				}
 				return "ok"
 			})
-			c.emit("signctx", []string{encStr(m), encStr(kt)}, impl, "")
+			orc := ""
+			if impl == "ok" && !knownMethod(m) {
+				orc = fmt.Sprintf("key=unknown-method-accepted a signing context was built for the unknown signature method %q", m)
+			}
+			c.emit("signctx", []string{encStr(m), encStr(kt)}, impl, orc)
 		}
 	}
 	c.xmlSignedMessages()
